@@ -75,6 +75,24 @@ def engine : Engine DState where
           | _, _ => some "bad-stat"
         | _ => some "bad-stat"
       (d, { model := model, violated := viol })
+    | ["afteri", a, b, i, _k, a2, b2, p] =>
+      -- After(a,b,i) with an Append(a2,b2,p) issued from inside the iteration: the iterator delivers what
+      -- was retained when it started (After copies under the lock), then the append takes effect.
+      match parseInt? i, p.startsWith "x" with
+      | some i, true =>
+        let op1 : Op String := .after (a, b) i
+        let op2 : Op String := .append (a2, b2) p
+        let viol := monitor d op1 impl
+        let (st', model) := match d.st with
+          | none => (none, "panic")
+          | some s => match step psz s op1 with
+            | none => (none, "panic")
+            | some (s1, o) => match step psz s1 op2 with
+              | none => (none, "panic")
+              | some (s2, _) => (some s2, showOut o)
+        let spec' := specUpd (a2, b2) (fun c => some (c.getD [] ++ [p])) d.spec
+        ({ d with st := st', spec := spec', lastApp := psz p }, { model := model, violated := viol })
+      | _, _ => (d, { model := "bad-op" })
     | _ =>
       match parseOp toks with
       | none => (d, { model := "bad-op" })
